@@ -202,9 +202,22 @@ def overrides(ctx, calc, wd, ds):
             ResultsWriter(calc.pressure_base).write({"keyword": "bm_V", "fname": "my_bulk.dat"})
             ResultsWriter(calc.pressure_base).write({"keyword": "G_V", "unit": "kbar"})
             ResultsWriter(calc.volume_base).write({"keyword": "cij_t", "unit": "kbar"})
+            ResultsWriter(calc.pressure_base).write({"keyword": "vp", "unit": "m/s", "fname": "vp_m_per_s.dat"})
+            ResultsWriter(calc.volume_base).write({"keyword": "secondary_velocities", "unit": "m/s", "fname": "vs_m_per_s.dat"})
+            ResultsWriter(calc.pressure_base).write({"keyword": "v", "unit": "bohr ** 3", "fname": "v_bohr3.dat"})
         except Exception as ex:
             ctx.violation(f"override raised {ex!r}", {}, {"clause": "override_raises"})
             return
+    for fn, arr, fac, what in (("vp_m_per_s.dat", calc.pressure_base.primary_velocities, 1000.0, "vp in m/s"),
+                               ("vs_m_per_s.dat", calc.volume_base.secondary_velocities, 1000.0, "vs in m/s"),
+                               ("v_bohr3.dat", calc.pressure_base.volumes, 1.0, "volumes in bohr^3")):
+        if not (out / fn).exists():
+            ctx.violation(f"unit + file-name override ({what}) wrote no file {fn}", {}, {"clause": "override_fname"})
+            continue
+        _, _, vx = parse_table(out / fn)
+        if not agrees_to_printed_precision(out / fn, vx, numpy.asarray(arr)[:-4] * fac):
+            ctx.violation(f"unit override not honoured: {fn} does not hold {what}", {}, {"clause": "override_unit"})
+        (out / fn).unlink()
     ctx.count({"override": "fname+unit"})
     files = sorted(p.name for p in out.iterdir() if not p.name.startswith("c"))
     k0 = calc.modulus_keys[0]
@@ -282,6 +295,24 @@ def write_output(ctx, calc, wd, exp_rows):
             return
     ctx.count({"write_output": sorted(calc.config["output"])})
     files = {p.name for p in out.iterdir()}
+    first = {p.name: p.read_bytes() for p in out.iterdir()}
+    with cwd(out):
+        try:
+            calc.write_output()                           # a second call writes the same files again
+        except Exception as ex:
+            ctx.violation(f"second write_output raised {ex!r}", {}, {"clause": "write_output_raises"})
+            return
+    out3 = Path(tempfile.mkdtemp(dir=wd.path))
+    with cwd(out3):
+        try:
+            calc.write_output()                           # ... and a third one, into an empty directory, all of them
+        except Exception as ex:
+            ctx.violation(f"third write_output raised {ex!r}", {}, {"clause": "write_output_raises"})
+            return
+    again, third = {p.name: p.read_bytes() for p in out.iterdir()}, {p.name: p.read_bytes() for p in out3.iterdir()}
+    if again != first or third != first:
+        ctx.violation(f"repeated write_output: second call {sorted(set(again) ^ set(first)) or ('same names' if again == first else 'content differs')}, "
+                      f"third call into an empty directory wrote {len(third)} of {len(first)} files", {}, {"clause": "write_output_repeat"})
     want = {"c%d%ds_tp_gpa.txt" % k.voigt for k in calc.modulus_keys} | {"bm_VRH_tp_gpa.txt", "G_VRH_tp_gpa.txt", "v_tp_ang3.txt",
             "v_s_tp_km_s.txt", "v_p_tp_km_s.txt", "p_tv_gpa.txt"}
     if files != want:
